@@ -57,6 +57,11 @@ def run(F, rep, tier):
     import core
     import c08
     core.borrow(rep, c08.unknown_is_deferred, lambda o: o["rule"] == "INFERENCE" and "=>error" in o["key"], F)
+    # every part of a qualified form (`ns.name`, `ns.Enum.Variant`, `ns.Type`) is resolved: the resolver's fold hands the qualifier
+    # on, it does not take the last name and drop what stands in front (shared with C09)
+    import c09
+    core.borrow(rep, c09.visit_resolver, lambda o: o["rule"] == "VISIT-resolve" and
+                any(t in o["key"] for t in ("|Access.", "|Variant.", "ty_assignable|")), F)
 
 
 def _tree_roles(fn):
